@@ -110,6 +110,12 @@ def _candidates(scn):
                 break
 
 
+def _same_direction(a, b):
+    da = a["system"]["tf"] - a["system"]["t0"]
+    db = b["system"]["tf"] - b["system"]["t0"]
+    return da * db > 0
+
+
 def minimise(prop, scn, oracle, budget_s=60):
     t0 = time.time()
     cur = copy.deepcopy(scn)
@@ -121,7 +127,7 @@ def minimise(prop, scn, oracle, budget_s=60):
             if time.time() - t0 > budget_s:
                 break
             try:
-                if _fails(prop, cand, oracle):
+                if _same_direction(cand, cur) and _fails(prop, cand, oracle):
                     cur = cand
                     improved = True
                     break
